@@ -14,6 +14,9 @@ CHECKS = {
 CHECKS["C03"] = dict(design="4/C03", technique="TLC-generated derivation corpus replayed through parse -> print -> re-lex; printed token sequence + original derivation kinds judged by the TLA+ grammar machine (GqlGrammarTrace); re-parse equality, idempotence",
     text="Every TLC-generated grammar skeleton (both dialects, focused interiors) is concretised with string contents that stress the printer, parsed, printed under several indent settings, and the printed text must (i) be a sentence of the TLA+ grammar whose derivation has exactly the original node kinds (judged by TLC on real-lexer tokens), (ii) re-parse to an equal tree up to positions, (iii) print again to the same text, never raising.",
     note="Same trusted base as C01/C02 (the lexer used to tokenise printed text is verified by them). String contents are a fixed pool (harness/corpus.py, harness/printreplay.py).")
+CHECKS["C18"] = dict(design="4/C18", technique="TLA+ event semantics of tree visiting (GqlVisitor.Visit) with TLC-enumerated edit plans and named deviations; replay into ASTVisitor / DispatchingVisitor / ChainedVisitor",
+    text="spec/GqlVisitor.tla defines the expected enter/leave event sequence and resulting tree for a role-labelled syntax tree under an edit plan (skip / delete list member / replace, per visitor of a chain); TLC enumerates the empty plan, every single edit and every pair on small trees for distinct tree shapes of the grammar corpus and checks Balanced / NoopComplete / EditLocal on the semantics; every (tree, plan) is executed on real visitor objects and the recorded log and tree must equal the specification. Implementation behaviours that differ are accepted only if one of nine named deviations (each a recorded known finding) explains them exactly.",
+    note="Tree shape = derivation is established by C02. Replacement nodes are leaves of the same category. Chains: no-op and skip only.")
 NOT_YET = {
 }
 
